@@ -479,9 +479,9 @@ func (node *GoValueNode) CallFunction(funcName string, args ...reflect.Value) (r
 		case "Len":
 			arrFunc = ArrMapLen
 		case "Append":
-			node.AppendValue(args)
+			err := node.AppendValue(args)
 
-			return reflect.Value{}, nil
+			return reflect.Value{}, err
 		}
 		if arrFunc != nil {
 			if funcName == "Clear" {
